@@ -187,8 +187,12 @@ func (r *FnRun) loadTyped(st *State, t types.Type, path string, rd func(path str
 		if !st.ranged[s.Len.S] {
 			st.ranged[s.Len.S] = true
 			r.assumeSliceWF(s)
-			// backing arrays that exist already are older than anything
-			// allocated from now on
+		}
+		// backing arrays that exist already are older than anything
+		// allocated from now on (own key: a specification may have read
+		// the slice before the code does)
+		if !st.ranged["bb:"+s.Base.S] {
+			st.ranged["bb:"+s.Base.S] = true
 			r.assume(Le(s.Base, st.top))
 		}
 		return s
@@ -196,6 +200,11 @@ func (r *FnRun) loadTyped(st *State, t types.Type, path string, rd func(path str
 	tm := rd(path, r.sortOf(t))
 	r.assumeRange(st, tm, t)
 	if _, ok := under(t).(*types.Pointer); ok && !st.ranged[tm.S] {
+		st.ranged[tm.S] = true
+		r.assume(And(Le(IntLit(0), tm), Le(tm, st.top)))
+	}
+	if _, ok := under(t).(*types.Chan); ok && tm.Sort == SInt && !st.ranged[tm.S] {
+		// a channel stored in memory was made earlier
 		st.ranged[tm.S] = true
 		r.assume(And(Le(IntLit(0), tm), Le(tm, st.top)))
 	}
